@@ -1,6 +1,7 @@
 import Lean.Data.Json
 import PynguinModel.Model.Cdg
 import PynguinModel.Model.CdgQueries
+import PynguinModel.Model.CdgFilter
 /-! Line-protocol driver for C06 (and the CDG part reused by C07). -/
 open Lean PynguinModel.Cdg
 
@@ -19,6 +20,8 @@ structure Case where
   exit : Nat
   root : Nat                -- AUGMENTED_ENTRY
   certs : Bool              -- validate the tree against post-dominance with certificates
+  rawNodes : List Nat       -- the graph handed to `filter_dead_code_nodes` (after `_insert_dummy_nodes`) …
+  rawEdges : List (Nat × Nat) -- … and its edges
   deriving FromJson
 
 def tripleJ (x : Nat × Nat × Option Bool) : Json :=
@@ -45,7 +48,15 @@ def runCase (c : Case) : Json :=
         | none => some (b, v, "no-certificate")
         | some d => if d == (up v).contains b then none else some (b, v, "tree-disagrees")))
     else []
+  -- the repaired `filter_dead_code_nodes` on the graph it was given
+  let rawE : List Edge := c.rawEdges.map (fun e => ⟨e.1, e.2, none⟩)
+  let live : Json := match filterDeadFull rawE c.entry c.rawNodes with
+    | some r => toJson (r.toArray.qsort (· < ·)).toList
+    | none => Json.null
+  let loopOnly := (filterDead rawE c.entry c.rawNodes.length c.rawNodes).length
   Json.mkObj [
+    ("live", live),
+    ("loopOnly", toJson loopOnly),
     ("cdg", Json.arr ((sortTriples g).map tripleJ).toArray),
     ("treeOK", toJson (treeOKb tbl)),
     ("labelConsistent", toJson (labelConsistentb algo)),
